@@ -1,0 +1,112 @@
+// Contracts for the C runtime, read by the verification machinery in /verif (never by a compiler: the text below
+// is a comment, and the guard macro is defined nowhere). The functions are extracted mechanically from this tree's
+// C sources on every run (clang -O0 IR -> Go, /verif/tools/c2go.py); names below are the C names.
+#ifdef DDP_VERIF_CONTRACTS
+/*@
+// ================= memory model (TRUSTED) =================
+// A Blk is one C object that holds bytes (a malloc'd array, a stack array); $m are its bytes, $n its size in bytes
+// (-1 once released). A Ptr is (block, offset). Every byte access goes through c_ld8 / c_st8.
+ghost Blk.$m intarray
+ghost Blk.$n int
+
+// n bytes starting at p lie inside a live block
+spec inb(p Ptr, n int) bool := p.B != nil && 0 <= p.O && 0 <= n && p.O + n <= p.B.$n
+spec byteAt(p Ptr, k int) int := p.B.$m[p.O + k]
+
+func c_ld8
+  trusted
+  requires inb(p, 1)
+  modifies nothing
+  ensures result == byteAt(p, 0)
+func c_st8
+  trusted
+  requires inb(p, 1)
+  modifies nothing
+  set p.B.$m := store(p.B.$m, p.O, v)
+func c_alloca
+  trusted
+  freshresult
+  modifies nothing
+  set result.$n := n
+  ensures result != nil
+func c_b2i
+  inline
+
+// ================= UTF-8 byte classes (bytes are C chars: -128..127) =================
+spec isCont(c int) bool  := -128 <= c && c < -64      // 10xxxxxx
+spec isAscii(c int) bool := 0 <= c                     // 0xxxxxxx
+spec isLead2(c int) bool := -64 <= c && c < -32       // 110xxxxx
+spec isLead3(c int) bool := -32 <= c && c < -16       // 1110xxxx
+spec isLead4(c int) bool := -16 <= c && c < -8        // 11110xxx
+
+func utf8_is_continuation [C12]
+  pure
+  ensures result <==> isCont(c)
+func utf8_is_multibyte [C12]
+  pure
+  ensures result <==> c < 0
+func utf8_is_single_byte [C12]
+  requires inb(c, 1)
+  modifies nothing
+  ensures result <==> isAscii(byteAt(c, 0))
+func utf8_is_double_byte [C12]
+  requires inb(c, 1) && (isLead2(byteAt(c, 0)) ==> inb(c, 2))
+  modifies nothing
+  ensures result <==> isLead2(byteAt(c, 0)) && isCont(byteAt(c, 1))
+func utf8_is_triple_byte [C12]
+  requires inb(c, 1) && (isLead3(byteAt(c, 0)) ==> inb(c, 2)) && (isLead3(byteAt(c, 0)) && isCont(byteAt(c, 1)) ==> inb(c, 3))
+  modifies nothing
+  ensures result <==> isLead3(byteAt(c, 0)) && isCont(byteAt(c, 1)) && isCont(byteAt(c, 2))
+func utf8_is_quadruple_byte [C12]
+  requires inb(c, 1) && (isLead4(byteAt(c, 0)) ==> inb(c, 2)) && (isLead4(byteAt(c, 0)) && isCont(byteAt(c, 1)) ==> inb(c, 3))
+  requires isLead4(byteAt(c, 0)) && isCont(byteAt(c, 1)) && isCont(byteAt(c, 2)) ==> inb(c, 4)
+  modifies nothing
+  ensures result <==> isLead4(byteAt(c, 0)) && isCont(byteAt(c, 1)) && isCont(byteAt(c, 2)) && isCont(byteAt(c, 3))
+
+// number of bytes a lead byte announces (0 for a continuation byte)
+func utf8_indicated_num_bytes [C12]
+  pure
+  ensures isAscii(c) ==> result == 1
+  ensures isLead2(c) ==> result == 2
+  ensures isLead3(c) ==> result == 3
+  ensures isLead4(c) ==> result == 4
+  ensures isCont(c) ==> result == 0
+  ensures 0 <= result && result <= 4
+
+// the C string at p ends at offset n: n+1 bytes are readable, byte n is NUL and no earlier byte is
+spec nulAt(p Ptr, n int) bool := 0 <= n && inb(p, n + 1) && byteAt(p, n) == 0 && (forall k int :: 0 <= k && k < n ==> byteAt(p, k) != 0)
+
+// number of code points = number of bytes that are not continuation bytes
+func utf8_strlen [C12]
+  requires s.B != nil ==> (exists n int :: nulAt(s, n))
+  modifies nothing
+  ensures s.B == nil ==> result == 0
+  ensures forall n int :: s.B != nil && nulAt(s, n) ==> result == count(k, 0, n, !isCont(byteAt(s, k)))
+  loop 0 invariant 0 <= i && (forall n int :: nulAt(s, n) ==> i <= n)
+  loop 0 invariant len_ == count(k, 0, i, !isCont(byteAt(s, k)))
+  loop 0 invariant s_addr == s && s.B != nil
+
+// width of the first character of the C string s if it is well-formed there, else 0
+spec widthAt(s Ptr, n int) int :=
+  (n >= 1 && isAscii(byteAt(s, 0))) ? 1 :
+  ((n >= 2 && isLead2(byteAt(s, 0)) && isCont(byteAt(s, 1))) ? 2 :
+  ((n >= 3 && isLead3(byteAt(s, 0)) && isCont(byteAt(s, 1)) && isCont(byteAt(s, 2))) ? 3 :
+  ((n >= 4 && isLead4(byteAt(s, 0)) && isCont(byteAt(s, 1)) && isCont(byteAt(s, 2)) && isCont(byteAt(s, 3))) ? 4 : 0)))
+func utf8_num_bytes [C12]
+  requires s.B != nil ==> (exists n int :: nulAt(s, n))
+  modifies nothing
+  ensures s.B == nil ==> result == 0
+  ensures forall n int :: s.B != nil && nulAt(s, n) ==> result == widthAt(s, n)
+  loop 0 invariant 0 <= len_ && len_ <= 4 && it.B == s.B && it.O == s.O + len_ && s_addr == s && s.B != nil
+  loop 0 invariant forall n int :: nulAt(s, n) ==> len_ <= n
+
+// number of bytes of the UTF-8 encoding of a code point, (size_t)-1 if it has none
+func utf8_num_bytes_char [C12]
+  pure
+  ensures 0 <= c && c <= 127 ==> result == 1
+  ensures 128 <= c && c <= 2047 ==> result == 2
+  ensures (2048 <= c && c < 55296) || (57343 < c && c <= 65535) ==> result == 3
+  ensures 65536 <= c && c <= 1114111 ==> result == 4
+  ensures c < 0 || (55296 <= c && c <= 57343) || c > 1114111 ==> result == -1
+@*/
+#endif
